@@ -178,6 +178,10 @@ func pc(o Opts, normal, all int) int {
 }
 
 func target(r *core.Rand, o Opts) string {
+	if r.Chance(1, 5) {
+		// back-reference targets, in every segment count (one too many included)
+		return r.Pick([]string{":MEASUREMENT", "rp0.:MEASUREMENT", "db0.rp0.:MEASUREMENT", "db0..:MEASUREMENT", "db0.rp0.m0.:MEASUREMENT", "db0.rp0.:measurement"})
+	}
 	switch r.Intn(4) {
 	case 0:
 		return ident(r, measPool, o.SafeNames)
@@ -380,7 +384,7 @@ func dimension(r *core.Rand, o Opts) string {
 	case 3:
 		return r.Pick([]string{"/t[01]/", "/host|region/", "/./", "/nomatch/"})
 	default:
-		return r.Pick([]string{"time()", "time(0s)", "time(0s, 1s)", "time(-1s)", "time(1s, 2s, 3s)", "foo(1)", "time(f0)", "time(1)", "time(10s, 1)", "bar()", "time(10s, 'x')", "time(5s, -3s)"})
+		return r.Pick([]string{"time()", "time(0s)", "time(0s, 1s)", "time(-1s)", "time(1s, 2s, 3s)", "foo(1)", "time(f0)", "time(1)", "time(10s, 1)", "bar()", "time(10s, 'x')", "time(5s, -3s)", "time(0s, now())", "time(1s - 1s, now() - 3s)", "time(0s, '2000-01-01T00:00:01Z' + 1s)", "time(0s, '2000-01-01T00:00:01Z')", "time(10s - 10s, 5s)"})
 	}
 }
 
@@ -439,7 +443,7 @@ func Cond(r *core.Rand, o Opts, depth int) string {
 // TimePred renders one time bound in one of the forms the properties list.
 func TimePred(r *core.Rand) string {
 	lit := r.Pick([]string{
-		"'2000-01-01T00:00:00Z'", "'2000-01-01T01:00:00Z'", "'2000-01-01'", "'2000-01-01 00:00:00'", "'2000-01-01 12:30:00.5'",
+		"'2000-01-01T00:00:00Z'", "'2000-01-01T01:00:00Z'", "'2000-01-01'", "'2000-01-01 00:00:00'", "'2000-01-01 12:30:00.5'", "'2000-06-15'", "'2000-06-15 12:00:00'",
 		"946684800000000000", "10s", "now()", "now() - 1h", "now() + 10m", "1000000000.0", "'today'", "'1677-09-20 19:12:43'", "'2262-04-11 23:47:17'",
 	})
 	op := r.Pick([]string{"=", "<", "<=", ">", ">=", "!="})
@@ -503,7 +507,9 @@ func Statement(r *core.Rand, o Opts) string {
 		func() string { return "SHOW SERIES" + on() + from() + where() + lim() },
 		func() string { return "SHOW SERIES " + r.Pick([]string{"", "EXACT "}) + "CARDINALITY" + on() + from() + where() },
 		func() string { return "SHOW MEASUREMENT " + r.Pick([]string{"", "EXACT "}) + "CARDINALITY" + on() + from() + where() },
-		func() string { return "SHOW TAG KEYS" + on() + from() + where() + lim() },
+		func() string {
+			return "SHOW TAG KEYS" + on() + from() + r.Pick([]string{"", "", " WITH KEY = host", " WITH KEY != host", " WITH KEY =~ /ho.*/", " WITH KEY !~ /x/", " WITH KEY IN (host, region)"}) + where() + lim()
+		},
 		func() string { return "SHOW TAG KEY " + r.Pick([]string{"", "EXACT "}) + "CARDINALITY" + on() + from() + where() },
 		func() string {
 			return "SHOW TAG VALUES" + on() + from() + " WITH KEY " + r.Pick([]string{"= host", "!= host", "IN (host, region)", "=~ /ho.*/", "!~ /x/"}) + where() + lim()
@@ -558,6 +564,11 @@ func Statement(r *core.Rand, o Opts) string {
 			rs := ""
 			if r.Chance(1, 2) {
 				rs = " RESAMPLE" + r.Pick([]string{" EVERY 10s", " FOR 1m", " EVERY 10s FOR 1m"})
+			}
+			if r.Chance(1, 3) {
+				// every combination of RESAMPLE with an inner SELECT that has no call / no GROUP BY time
+				inner := r.Pick([]string{"SELECT value INTO " + target(r, o) + " FROM cpu", "SELECT value INTO " + target(r, o) + " FROM cpu GROUP BY host", "SELECT mean(value) INTO " + target(r, o) + " FROM cpu", "SELECT mean(value) INTO " + target(r, o) + " FROM cpu GROUP BY time(0s)", "SELECT count(value) INTO " + target(r, o) + " FROM cpu GROUP BY time(1m), *"})
+				return "CREATE CONTINUOUS QUERY " + id() + " ON " + id() + r.Pick([]string{"", " RESAMPLE EVERY 10s", " RESAMPLE FOR 1h", " RESAMPLE EVERY 2m FOR 1m", " RESAMPLE FOR 1ns"}) + " BEGIN " + inner + " END"
 			}
 			return "CREATE CONTINUOUS QUERY " + id() + " ON " + id() + rs + " BEGIN SELECT mean(value) INTO " + target(r, o) + " FROM cpu GROUP BY time(" + r.Pick([]string{"10s", "1m", "1h"}) + ")" + r.Pick([]string{"", ", host", ", *"}) + " END"
 		},
